@@ -57,6 +57,8 @@ func init() {
 					add("conc", rep, concCfg{Workers: w, InCh: []int{1, 4, 1024, 16}[i], Producers: 8, Ops: tierPick(tier, 80, 200), Perturb: 1 + i%2, Cycles: 1 + i%2, Query: true, HotGroups: 2 + i%2, BodyYield: 1 + i%2, Baton: i == 2}, 600)
 				}
 				add("c03", rep, c03Params{Kind: "stress", Workers: 4, Cycles: tierPick(tier, 10, 25), Perturb: 1}, 600)
+				add("c03", rep, c03Params{Kind: "first-start", Workers: 3, Cycles: tierPick(tier, 40, 150)}, 600)
+				add("c03", rep, c03Params{Kind: "multishutdown", Workers: 2, Cycles: tierPick(tier, 40, 150)}, 600)
 				add("c04", rep, c04Params{Kind: "concurrent", Workers: 8, N: tierPick(tier, 1200, 4000)}, 600)
 				add("c08", rep, c08Params{Kind: "concurrent", Shard: rep, N: tierPick(tier, 1200, 4000)}, 600)
 				add("c11", rep, c11Params{Kind: "concurrent", Store: storeKind{Impl: "badger", Typed: rep%2 == 0, Prefix: "r"}, Histories: tierPick(tier, 6, 20)}, 900)
